@@ -392,6 +392,13 @@ func runBehaviour(t *testing.T, in *vio.Input, bi int, b vio.Behaviour, v varian
 		}
 		hist = append(hist, json.RawMessage(st.A))
 		brk := func(format string, args ...any) {
+			if a.S != "" && !stopBegun && w.signalCount("relay.session.cleanup", a.S) > cleanupsSeen[a.S] {
+				// the session's NAT timeout expired by itself while the harness was slow: a behaviour the spec
+				// allows (TimerFire), but not the one being replayed; give up on this behaviour without a verdict
+				res.Count("skipped_spontaneous_timeout", 1)
+				finish(si)
+				return
+			}
 			hj, _ := json.Marshal(hist)
 			res.Break("behaviour %d step %d %s(%s): %s [logs: %s] [actions: %s]", bi, si, a.N, a.S, fmt.Sprintf(format, args...), r.LogTail(3), hj)
 			finish(si)
